@@ -344,14 +344,17 @@ def conds_before(path, target):
 
 
 def consistent(conds):
-    """no condition occurs with both polarities (the analysed loop bodies do not
-    re-assign what their guards test between two occurrences)"""
+    """no atomic condition occurs with both polarities (the analysed bodies do
+    not re-assign what their guards test between two occurrences); `not x` and
+    conjunctions are flattened first"""
+    from ..guards import conjuncts
     seen = {}
     for t, p in conds:
-        k = norm(t)
-        if k in seen and seen[k] != p:
-            return False
-        seen[k] = p
+        for a, pol in conjuncts(t, p):
+            k = norm(a)
+            if k in seen and seen[k] != pol:
+                return False
+            seen[k] = pol
     return True
 
 
